@@ -44,6 +44,12 @@ theorem C17_fact_leafValueTable :
        ("LEAFLIST_BOOL", "", 0, "List", "List"), ("LEAFLIST_DECIMAL", "", 0, "ListFloat", "ListFloat"),
        ("LEAFLIST_FLOAT", "", 0, "List", "List"), ("LEAFLIST_BYTES", "", 0, "List", "List")] := by decide
 
+/-- The two repairs are in the source: a DecimalVal precision above 18 is refused, a FloatVal NaN
+    is refused with an error (v2 and v3). -/
+theorem C17_fact_precision_bound_and_nan_refused :
+    Generated.maxDecimalPrecisionV2 = some 18 ∧ Generated.maxDecimalPrecisionV3 = some 18 ∧
+    Generated.floatNaNRefusedV2 = true ∧ Generated.floatNaNRefusedV3 = true := by decide
+
 /-- `handleLeafList` looks at its lists in the order string, int, uint, bool, bytes, decimal,
     float, each building its own leaf-list type; widths default to 32. -/
 theorem C17_fact_leafList_chain_and_defaults :
@@ -85,9 +91,10 @@ theorem C17_roundtrip_scalar (s : Scalar) (opts : List Nat) (h : scalarOK s = tr
   | bytes b => rfl
   | dec d p =>
     simp only [scalarOK, Bool.and_eq_true, decide_eq_true_eq] at h
-    have hp : p % 256 = p := Nat.mod_eq_of_lt h.2
-    simp only [roundTrip, toNative, toGnmi, newDecimal, hp, norm]
-    have := tvDecimal_newDecimal d p h.1 h.2
+    have hp : p % 256 = p := Nat.mod_eq_of_lt (by omega)
+    have hr : precisionRefused p = false := by rw [fact_precisionRefused]; simp; omega
+    simp only [roundTrip, toNative, hr, Bool.false_eq_true, if_false, toGnmi, newDecimal, hp, norm]
+    have := tvDecimal_newDecimal d p h.1 (by omega)
     simp only [newDecimal] at this
     rw [this]
   | decNil => simp [scalarOK] at h
@@ -99,18 +106,30 @@ theorem C17_roundtrip_scalar (s : Scalar) (opts : List Nat) (h : scalarOK s = tr
   | anyNil => simp [scalarOK] at h
   | other => simp [scalarOK] at h
 
-/-- A float NaN is not converted at all: the conversion panics (`big.NewFloat(NaN)`), which is
-    why `scalarOK` excludes NaN (known finding KF-C17-float-nan-panic). -/
-theorem C17_roundtrip_float_nan_panics :
-    roundTrip (.scalar (.float 0x7FC00000)) [] = .error .panic := by
-  decide
+/-- A FloatVal NaN is refused with an error, whatever the payload bits (the typed value is built
+    with `big.NewFloat`, which would panic; repaired: was KF-C17-float-nan-panic).  `scalarOK`
+    excludes NaN because it is not stored — not because anything crashes. -/
+theorem C17_float_nan_refused (f : Nat) (opts : List Nat) (h : isNaN32 f = true) :
+    toNative (.scalar (.float f)) opts = .error .floatNaN ∧ roundTrip (.scalar (.float f)) opts = .error .floatNaN := by
+  simp [roundTrip, toNative, h, fact_nanFailure]
 
-/-- A decimal whose precision does not fit a uint8 does not come back: `uint8(Precision)`
-    (digits 1234, precision 258 is read back with precision 2).  Outside YANG's 1..18; shown
-    because it is why `scalarOK` bounds the precision. -/
-theorem C17_roundtrip_decimal_precision_truncated :
-    roundTrip (.scalar (.dec 1234 258)) [] = .ok (.scalar (.dec 1234 2)) := by
-  decide +kernel
+/-- A DecimalVal whose precision exceeds 18 (YANG decimal64) is refused with an error, as a scalar
+    and as a leaf-list member: nothing with such a precision is ever stored (repaired: the
+    precision used to be truncated to a uint8 and 64..255 made `strDecimal64` divide by zero, was
+    KF-C17-decimal-precision-panic). -/
+theorem C17_decimal_precision_above_18_refused (d : Int) (p : Nat) (opts : List Nat) (h : p > 18) :
+    toNative (.scalar (.dec d p)) opts = .error .decimalPrecision ∧
+    ∀ (pre : List Int) (q : Nat) (post : List Scalar), q ≤ 18 →
+      toNative (.leaflist ((pre.map fun x => .dec x q) ++ .dec d p :: post)) opts = .error .decimalPrecision := by
+  have hr : precisionRefused p = true := by rw [fact_precisionRefused]; simpa using h
+  refine ⟨by simp [toNative, hr], ?_⟩
+  intro pre q post hq
+  have hq' : precisionRefused q = false := by rw [fact_precisionRefused]; simp; omega
+  have hc : ∀ (acc : LLAcc), llCollect acc ((pre.map fun x => Scalar.dec x q) ++ .dec d p :: post) = .error .decimalPrecision := by
+    induction pre with
+    | nil => intro acc; simp [llCollect, hr]
+    | cons x xs ih => intro acc; simp only [List.map_cons, List.cons_append, llCollect, hq', Bool.false_eq_true, if_false]; exact ih _
+  simp [toNative, handleLeafList, hc]
 
 /-! ### leaf-lists -/
 
@@ -140,13 +159,13 @@ theorem C17_roundtrip_leaflist_bool (xs : List Bool) (opts : List Nat) (hne : xs
   simp only [newLLBool] at this
   rw [this]
 
-/-- decimal64 leaf-lists whose members share one precision (< 256) come back unchanged. -/
+/-- decimal64 leaf-lists whose members share one precision (at most 18) come back unchanged. -/
 theorem C17_roundtrip_leaflist_decimal (ds : List Int) (p : Nat) (opts : List Nat) (hne : ds ≠ [])
-    (h : ∀ d ∈ ds, isInt64 d = true) (hp : p < 256) :
+    (h : ∀ d ∈ ds, isInt64 d = true) (hp : p ≤ 18) :
     roundTrip (.leaflist (ds.map fun d => .dec d p)) opts = .ok (.leaflist (ds.map fun d => .dec d p)) := by
-  have hp' : p % 256 = p := Nat.mod_eq_of_lt hp
-  simp only [roundTrip, toNative, handleLeafList_decs _ _ _ hne, hp', toGnmi, newLLDecimal]
-  have := tvLLDecimal_newLLDecimal ds p h hp
+  have hp' : p % 256 = p := Nat.mod_eq_of_lt (by omega)
+  simp only [roundTrip, toNative, handleLeafList_decs _ _ _ hne hp, hp', toGnmi, newLLDecimal]
+  have := tvLLDecimal_newLLDecimal ds p h (by omega)
   simp only [newLLDecimal] at this
   rw [this]; rfl
 
@@ -425,7 +444,8 @@ theorem C17_json_decimal_partial (d : Int) (p : Nat) (opts : List Nat) (st : Boo
     jsonOf (.scalar (.dec d p)) opts st = .ok (some (.scalar (.str (asciiBytes (decimalText d p))))) := by
   have hp' : p % 256 = p := Nat.mod_eq_of_lt (by omega)
   have hv := tvDecimal_newDecimal d p hd (by omega)
-  simp only [jsonOf, toNative, hp', jsonLeaf]
+  have hr : precisionRefused p = false := by rw [fact_precisionRefused]; simp; omega
+  simp only [jsonOf, toNative, hr, Bool.false_eq_true, if_false, hp', jsonLeaf]
   simp only [newDecimal] at hv ⊢
   simp only [hv, strDecimal64_eq_decimalText d p hd hp hs]
   simp
@@ -447,11 +467,26 @@ theorem C17_json_decimal_sign_fails :
   · decide +kernel
   · decide
 
-/-- a precision of 64 makes `strDecimal64` divide by `10^64 mod 2^64 = 0`: a panic where the
-    JSON document is built (known finding KF-C17-decimal-precision-panic; outside YANG's 1..18). -/
-theorem C17_json_decimal_precision_64_panics :
-    jsonOf (.scalar (.dec 1234 64)) [] false = .error .panic := by
-  decide +kernel
+/-- Building the document never panics on a decimal a client set: a precision above 18 is
+    refused before anything is stored, and for 0..18 the divisor `10^precision` is not zero
+    (repaired: a precision of 64..255 used to reach `strDecimal64` and divide by
+    `10^64 mod 2^64 = 0`; was KF-C17-decimal-precision-panic). -/
+theorem C17_json_decimal_never_panics (d : Int) (p : Nat) (opts : List Nat) (st : Bool) :
+    jsonOf (.scalar (.dec d p)) opts st ≠ .error .panic := by
+  by_cases hp : p > 18
+  · have hr : precisionRefused p = true := by rw [fact_precisionRefused]; simpa using hp
+    simp [jsonOf, toNative, hr]
+  · have hr : precisionRefused p = false := by rw [fact_precisionRefused]; simpa using hp
+    have hp' : p % 256 = p := Nat.mod_eq_of_lt (by omega)
+    have hq : (((p : Int) % 256).toNat) = p := by omega
+    simp only [jsonOf, toNative, hr, Bool.false_eq_true, if_false, hp', jsonLeaf, newDecimal, tvDecimal,
+      List.head?_cons, hq, Bool.true_and, if_true]
+    by_cases hp0 : p = 0
+    · subst hp0; simp [strDecimal64]
+    · have hpw := pow10Wrap_eq (p - 1) (by omega)
+      have hpos : 0 < 10 ^ (p - 1 + 1) := Nat.pow_pos (by decide)
+      have hne : ¬(pow10Wrap (p - 1) = 0) := by rw [hpw]; omega
+      simp [strDecimal64, hp0, hne]
 
 /-! ### leaf-lists in the document -/
 
@@ -515,11 +550,11 @@ theorem C17_json_leaflist_bytes_partial (xs : List Bytes) (opts : List Nat) (st 
     float64s (`ListFloat`), whatever `jsonRFC7951` says (known finding KF-C17-lldecimal-float;
     the text of a Go float is outside the twin). -/
 theorem C17_json_leaflist_decimal_is_float (ds : List Int) (p : Nat) (opts : List Nat) (st : Bool) (hne : ds ≠ [])
-    (h : ∀ d ∈ ds, isInt64 d = true) (hp : p < 256) :
+    (h : ∀ d ∈ ds, isInt64 d = true) (hp : p ≤ 18) :
     jsonOf (.leaflist (ds.map fun d => .dec d p)) opts st = .ok (some .floatText) := by
-  have hp' : p % 256 = p := Nat.mod_eq_of_lt hp
-  have hv := tvLLDecimal_newLLDecimal ds p h hp
-  simp only [jsonOf, toNative, handleLeafList_decs _ _ _ hne, hp', jsonLeaf]
+  have hp' : p % 256 = p := Nat.mod_eq_of_lt (by omega)
+  have hv := tvLLDecimal_newLLDecimal ds p h (by omega)
+  simp only [jsonOf, toNative, handleLeafList_decs _ _ _ hne hp, hp', jsonLeaf]
   simp only [newLLDecimal] at hv ⊢
   simp only [hv]; rfl
 
